@@ -14,6 +14,7 @@ func init() {
 				{Harness: "c06.nesting", Mode: "plain", Shards: 8, MaxRSS: 8192, GC: "on"},
 				{Harness: "c06.reader", Mode: "plain", Shards: 16},
 				{Harness: "c20.paths", Mode: "plain", Shards: 16},
+				{Harness: "c06.pathtrunc", Mode: "plain", Shards: 16},
 				{Harness: "c06.lengths", Mode: "plain", Shards: 16},
 				{Harness: "c06.iface", Mode: "plain", Shards: 4},
 			}
